@@ -211,7 +211,7 @@ def _run(ctx):
     ctx.sample({"recipe": ex, "output": gen.build(ex).get_html_string()})
 
     w = {"block": 3, "inline": 5, "void_inline": 1, "void_block": 1, "text": 4, "html": 1, "obj": 1, "meta": 1, "dep": 0.5}
-    for _ in range(ctx.budget(5000, 400000)):
+    for _ in range(ctx.budget(5000, 4000000)):
         ids = lg.Ids()
         depth = rng.choice([1, 2, 3, 4, 5, 6, 7])
         if rng.random() < 0.2:
